@@ -316,7 +316,12 @@ func (w *world) observe() {
 						if s == l.spec.States[0] {
 							_, has := tx.Mut.Args["k"]
 							if !l.spec.Args || has {
-								l.must, l.why = true, fmt.Sprintf("%s activated with matching args in tx#%d", s, txNo)
+								if own {
+									// subscribed from inside this very transition: the State event may have fired already
+									l.either = true
+								} else {
+									l.must, l.why = true, fmt.Sprintf("%s activated with matching args in tx#%d", s, txNo)
+								}
 							}
 						}
 					}
